@@ -148,6 +148,9 @@ pub fn run_all(ctx: &mut Ctx, stream: &str) {
 		RangeInclusive<Compact<u32>>, Range<Option<NonZeroU16>>, Range<(u8, u32)>, Range<Duration>, RangeInclusive<Duration>, [Range<Duration>; 2], [RangeInclusive<(u8, u32)>; 3],
 		Vec<Range<Duration>>, Range<bool>, [Duration; 3], [Range<u16>; 2],
 		IdxEnum, [IdxEnum; 3], Vec<IdxEnum>,
+		// user-defined wrappers relying on the provided `decode_wrapped` (the model's `wrap`)
+		UserWrap<u32>, UserWrap<Vec<u8>>, Vec<UserWrap<u16>>, UserWrap<UserWrap<Box<u8>>>, Box<UserWrap<()>>, UNode, Option<SharedNode>, [UserWrap<u8>; 3],
+		(UserWrap<String>, u8), Vec<UNode>,
 		TwinU32, TwinU8, Named, Skipper, CompactFields, UsesCompactAs, Mixed, Tree, Chain, Transparent,
 		Generic<u8, u16>, Generic<String, TwinU32>, Vec<Mixed>, Option<Named>, Box<Chain>, Vec<Skipper>, BTreeMap<u8, Mixed>,
 		MelEnum, MelGen<u32>, MelGen<u64>, MelGen<u8>, Option<MelEnum>, [MelGen<u16>; 2], (MelEnum, CompactFields), Box<CompactFields>,
@@ -204,13 +207,6 @@ pub fn run_all(ctx: &mut Ctx, stream: &str) {
 	#[cfg(feature = "bytes-f")]
 	{
 		plain!(ctx, stream, f; bytes::Bytes, Option<bytes::Bytes>, Vec<bytes::Bytes>, (u8, bytes::Bytes), (bytes::Bytes, u32), (bytes::Bytes, bytes::Bytes), [bytes::Bytes; 3], Vec<(bytes::Bytes, u8)>);
-	}
-	// user-defined wrappers relying on the provided `decode_wrapped` (descend, decode, ascend - no heap
-	// announcement): to the model `box 0 T`, which is exact except under a memory limit of 0, where
-	// `Box` announces 0 bytes and is refused and these announce nothing - so not in the `mem` stream
-	if stream != "mem" {
-		nomem!(ctx, stream, f; UserWrap<u32>, UserWrap<Vec<u8>>, Vec<UserWrap<u16>>, UserWrap<UserWrap<Box<u8>>>, Box<UserWrap<()>>, UNode, Option<SharedNode>, [UserWrap<u8>; 3],
-			(UserWrap<String>, u8), Vec<UNode>);
 	}
 	#[cfg(feature = "garray-f")]
 	{
